@@ -81,7 +81,7 @@ struct locale_options {
 	const char *decimal_point;
 	const char *thousands_sep;
 	const char *grouping;
-	size_t thousands_sep_size;
+	size_t thousands_sep_size = 0;
 };
 
 enum class format_error {
@@ -105,34 +105,50 @@ namespace _fmt_basics {
 		char buffer[64];
 
 		int k = 0; // number of digits
-		int c = 0; // number of chars since last grouping
-		int g = 0; // grouping index
-		int r = 0; // amount of times we repeated the last grouping
+		int c = 0; // number of digits in the current (most significant) group
+		int g = 0; // grouping index of the current group
+		int r = 0; // number of times the last grouping entry was repeated
 		size_t extra = 0; // extra chars printed due to seperator
 
+		// Size of the group that grouping[g] describes; 0 means that there is no (further) grouping.
+		auto group_size = [&] () -> int {
+			char gs = locale_opts.grouping[g];
+			return (gs > 0 && gs != 0x7f) ? gs : 0;
+		};
+
+		// Called for each digit, from the least significant one upwards.
 		auto step_grouping = [&] () {
 			if (!group_thousands)
 				return;
 
-			if (++c == locale_opts.grouping[g]) {
-				if (locale_opts.grouping[g + 1] > 0)
+			int gs = group_size();
+			if (gs && c == gs) {
+				// This digit opens a new group; a separator goes between it and the previous digit.
+				if (locale_opts.grouping[g + 1] != 0)
 					g++;
 				else
 					r++;
 				c = 0;
 				extra += locale_opts.thousands_sep_size;
 			}
+			c++;
 		};
 
-		auto emit_grouping = [&] () {
+		// Called after each printed digit, from the most significant one downwards.
+		auto emit_grouping = [&] (bool more_digits) {
 			if (!group_thousands)
 				return;
 
-			if (--c == 0) {
+			if (--c == 0 && more_digits) {
 				sink.append(locale_opts.thousands_sep);
-				if (!r || !--r)
+				// Walk back through the groups exactly as step_grouping() advanced through them.
+				if (r > 0) {
+					r--;
+				} else {
+					FRG_ASSERT(g > 0);
 					g--;
-				c = locale_opts.grouping[g];
+				}
+				c = group_size();
 			}
 		};
 
@@ -147,9 +163,6 @@ namespace _fmt_basics {
 		if (k < precision)
 			for (int i = 0; i < precision - k; i++)
 				step_grouping();
-
-		if (!c)
-			c = locale_opts.grouping[g];
 
 		int final_width = max(k, precision) + extra;
 
@@ -167,13 +180,13 @@ namespace _fmt_basics {
 		if(k < precision) {
 			for(int i = 0; i < precision - k; i++) {
 				sink.append('0');
-				emit_grouping();
+				emit_grouping(true);
 			}
 		}
 
 		for(int i = k - 1; i >= 0; i--) {
 			sink.append(buffer[i]);
-			emit_grouping();
+			emit_grouping(i > 0);
 		}
 
 		if(left_justify && final_width < width)
